@@ -608,13 +608,13 @@ class Run:
                 self.violations.append({"what": "forced schedule: " + x["why"], "replay": rp})
         return cnt
 
-    def lin_stress(self, histories, procs, calls, names=2, seed_off=0):
+    def lin_stress(self, histories, procs, calls, names=2, seed_off=0, profile="random"):
         """hook-free stress of the real registry under the race detector; TLC searches a linearization"""
         vd = self.build(race=True)
         seed = self.seed + seed_off
-        path = os.path.join(self.scratch, "reg-%d-%d-%d.ndjson" % (procs, calls, seed))
+        path = os.path.join(self.scratch, "reg-%s-%d-%d-%d.ndjson" % (profile, procs, calls, seed))
         cmd = [vd, "conc", "stress", "-seed", str(seed), "-histories", str(histories), "-procs", str(procs), "-calls", str(calls),
-               "-names", str(names), "-out", path]
+               "-names", str(names), "-profile", profile, "-out", path]
         p = subprocess.run(cmd, capture_output=True, text=True, timeout=1800, env=dict(os.environ, GORACE="halt_on_error=0 exitcode=66"))
         if "DATA RACE" in p.stderr or p.returncode == 66:
             rp = self.write_replay({"kind": "race", "cmd": " ".join(cmd[1:]), "report": p.stderr[:6000]})
@@ -629,7 +629,7 @@ class Run:
                 log("  stress procs=%d calls=%d: process crashed: %s" % (procs, calls, lf))
                 return
             raise Broken("conc stress failed: rc=%d %s" % (p.returncode, p.stderr[-1500:]))
-        self.lin_validate(path, "stress procs=%d calls=%d names=%d" % (procs, calls, names))
+        self.lin_validate(path, "stress %s procs=%d calls=%d names=%d" % (profile, procs, calls, names))
 
     def lin_validate(self, path, label):
         lines = open(path).read().splitlines()
